@@ -4,6 +4,7 @@
 From Coq Require Import ZArith List Bool Lia.
 Import ListNotations.
 From XO Require Import Slots Strides Perm BufOps Types Format Check LayoutProofs RoundTrip Complete UpdateAt Address.
+From XO Require CopyBytes DecLocal.
 Open Scope Z_scope.
 
 (* header words: 8-byte little-endian two's complement, exact on the whole int64 range *)
@@ -103,6 +104,16 @@ Example C05_example_roundtrip :
   | None => false end = true.
 Proof. vm_compute. reflexivity. Qed.
 
+(* ANY ACCEPTED BYTES: whatever the strict decoder accepts as an object of a reference-free type (a fresh image,
+   or the bytes left by any history of assignments, slack included), the value and the size it returns are a
+   function of the bytes of [off, off+size) alone; the size is never negative and a statically sized type always
+   reports its class size *)
+Theorem C05_decoder_reads_own_extent_only : forall t m off v s m', has_refs t = false -> dec t m off = Some (v, s) ->
+  len m <= len m' -> CopyBytes.agree_on m m' off s -> dec t m' off = Some (v, s).
+Proof. exact DecLocal.dec_local. Qed.
+Theorem C05_decoded_size : forall t m off v s, has_refs t = false -> dec t m off = Some (v, s) ->
+  0 <= s /\ forall cs, csize t = Some cs -> s = cs.
+Proof. exact DecLocal.dec_size. Qed.
 Print Assumptions C05_word_roundtrip.
 Print Assumptions C05_slot.
 Print Assumptions C05_decode_scalar.
@@ -120,3 +131,5 @@ Print Assumptions C05_array_data_slot_aligned.
 Print Assumptions C05_dynamic_items_slot_aligned.
 Print Assumptions C05_reference_holders_checker_sound.
 Print Assumptions C05_reference_holders_checker_complete.
+Print Assumptions C05_decoder_reads_own_extent_only.
+Print Assumptions C05_decoded_size.
